@@ -138,6 +138,8 @@ def obligations(tier):
         (n, auxes, symticks, done_need, end) = cfg[:5]
         aux_frames = cfg[5] if len(cfg) > 5 else 2
         for parent in (flostep.QUICK_FORESTS.get(n, flostep.all_forests(n)) if tier == "quick" else flostep.all_forests(n)):
+            if tier == "quick" and len(auxes) == 2 and parent == list(range(-1, n - 1)):
+                continue    # one original on two frames (forced in the quick tier) of a single chain is always C08's case: vacuous here
             out.append(Ob("step/N%d-%s%s-sym%d-%s-%s/%s" % (n, "+".join(auxes), "-aux3" if aux_frames == 3 else "", symticks, "doneneed" if done_need else "plaingo",
                                                         {None: "run", 0: "stop", 3: "abort"}[end],
                                                         "".join("r" if q < 0 else str(q) for q in parent)),
